@@ -12,6 +12,7 @@ def handle (line : String) : String :=
   | "PSTRINGIFY" :: rest => Path.stringifyLine rest
   | "PLE" :: rest => Path.leLine rest
   | "NDIST" :: rest => Dist.ndistLine rest
+  | "TDIST" :: rest => Dist.tdistLine rest
   | "HASH" :: rest => Hash.hashLine rest
   | "DIFF" :: rest => Diff.diffLine rest
   | "DIFFX" :: rest => Diff.diffxLine rest
